@@ -13,11 +13,15 @@ import (
 	"os"
 	"os/exec"
 	"path/filepath"
+	"reflect"
+	"runtime/debug"
+	"runtime/pprof"
 	"sort"
 	"strings"
 	"sync/atomic"
 	"syscall"
 	"time"
+	"unsafe"
 
 	"ariga.io/atlas/sql/migrate"
 	"ariga.io/atlas/sql/mysql"
@@ -86,7 +90,14 @@ func main() {
 		supervise(*outDir)
 		return
 	}
+	debug.SetGCPercent(800) // short-lived garbage only (plans, SQL text); the live heap is the set of seen case lines
 	w := out.New(*outDir)
+	if pf := os.Getenv("VERIF_SORT_PROF"); pf != "" { // debugging aid
+		if f, err := os.Create(pf); err == nil {
+			pprof.StartCPUProfile(f)
+			defer pprof.StopCPUProfile()
+		}
+	}
 	if v := os.Getenv("VERIF_SORT_REPLANS"); v != "" { // debugging aid
 		fmt.Sscan(v, &replans)
 	}
@@ -175,26 +186,51 @@ func decodeTop(cs []schema.Change) ([]ochg, []string, bool) {
 // snapshot: the identity of everything a planner is handed and must leave alone -- the elements of
 // the slice, the Changes of each ModifyTable, the table behind each change (name, schema, its
 // ForeignKeys slice and their end points).
-func snapshot(cs []schema.Change) string {
-	var b strings.Builder
-	tab := func(t *schema.Table) {
-		fmt.Fprintf(&b, "T%p:%s:%p[", t, t.Name, t.Schema)
-		for _, f := range t.ForeignKeys {
-			fmt.Fprintf(&b, "%p:%s:%p>%p,", f, f.Symbol, f.Table, f.RefTable)
+func snapshot(cs []schema.Change) uint64 {
+	h := uint64(14695981039346656037)
+	mix := func(v uint64) { h = (h ^ v) * 1099511628211 }
+	ptr := func(p unsafe.Pointer) { mix(uint64(uintptr(p))) }
+	str := func(s string) {
+		for i := 0; i < len(s); i++ {
+			mix(uint64(s[i]))
 		}
-		b.WriteString("]")
+		mix(0xff)
 	}
+	iface := func(x any) { // a change value: its dynamic type and its pointer
+		v := reflect.ValueOf(x)
+		str(v.Type().String())
+		if v.Kind() == reflect.Pointer {
+			mix(uint64(v.Pointer()))
+		}
+	}
+	tab := func(t *schema.Table) {
+		ptr(unsafe.Pointer(t))
+		str(t.Name)
+		ptr(unsafe.Pointer(t.Schema))
+		mix(uint64(len(t.ForeignKeys)))
+		for _, f := range t.ForeignKeys {
+			ptr(unsafe.Pointer(f))
+			str(f.Symbol)
+			ptr(unsafe.Pointer(f.Table))
+			ptr(unsafe.Pointer(f.RefTable))
+		}
+	}
+	mix(uint64(len(cs)))
 	for _, c := range cs {
-		fmt.Fprintf(&b, "%T%p{", c, c)
+		iface(c)
 		switch c := c.(type) {
 		case *schema.AddSchema:
-			fmt.Fprintf(&b, "%p:%s", c.S, c.S.Name)
+			ptr(unsafe.Pointer(c.S))
+			str(c.S.Name)
 		case *schema.DropSchema:
-			fmt.Fprintf(&b, "%p:%s", c.S, c.S.Name)
+			ptr(unsafe.Pointer(c.S))
+			str(c.S.Name)
 		case *schema.ModifySchema:
-			fmt.Fprintf(&b, "%p:%s", c.S, c.S.Name)
+			ptr(unsafe.Pointer(c.S))
+			str(c.S.Name)
+			mix(uint64(len(c.Changes)))
 			for _, x := range c.Changes {
-				fmt.Fprintf(&b, " %T%p", x, x)
+				iface(x)
 			}
 		case *schema.AddTable:
 			tab(c.T)
@@ -202,21 +238,34 @@ func snapshot(cs []schema.Change) string {
 			tab(c.T)
 		case *schema.ModifyTable:
 			tab(c.T)
+			mix(uint64(len(c.Changes)))
 			for _, x := range c.Changes {
-				fmt.Fprintf(&b, " %T%p", x, x)
+				iface(x)
 				switch x := x.(type) {
 				case *schema.AddForeignKey:
-					fmt.Fprintf(&b, "=%p", x.F)
+					ptr(unsafe.Pointer(x.F))
 				case *schema.DropForeignKey:
-					fmt.Fprintf(&b, "=%p", x.F)
+					ptr(unsafe.Pointer(x.F))
 				case *schema.ModifyForeignKey:
-					fmt.Fprintf(&b, "=%p>%p", x.From, x.To)
+					ptr(unsafe.Pointer(x.From))
+					ptr(unsafe.Pointer(x.To))
 				}
 			}
 		}
-		b.WriteString("} ")
 	}
-	return b.String()
+	return h
+}
+
+func samePointers(a, b []schema.Change) bool {
+	if len(a) != len(b) {
+		return false
+	}
+	for i := range a {
+		if a[i] != b[i] {
+			return false
+		}
+	}
+	return true
 }
 
 func guard(f func() ([]schema.Change, []failure, error)) (r runRes) {
@@ -267,8 +316,8 @@ func runSort(sc *scenario) runRes {
 			dsnap := snapshot(d)
 			last = verifx.SortChanges(d, nil)
 			again := verifx.SortChanges(d, nil)
-			if a, b := showPlan(last), showPlan(again); a != b {
-				more = append(more, failure{class: "replan-differs", msg: fmt.Sprintf("SortChanges of the same detached list, called twice: %s then %s", a, b)})
+			if !samePointers(last, again) {
+				more = append(more, failure{class: "replan-differs", msg: fmt.Sprintf("SortChanges of the same detached list, called twice: %s then %s", showPlan(last), showPlan(again))})
 			}
 			if snapshot(d) != dsnap {
 				more = append(more, failure{class: "input-mutated", msg: "SortChanges changed the slice it was given (elements, ModifyTable.Changes or a table's foreign keys)"})
@@ -350,7 +399,14 @@ func planCmds(p *migrate.Plan) string {
 	for i, c := range p.Changes {
 		ss[i] = c.Cmd
 	}
-	return strings.Join(ss, ";\n")
+	return strings.Join(ss, "; ")
+}
+
+func clip(s string) string {
+	if len(s) > 600 {
+		return s[:600] + "..."
+	}
+	return s
 }
 
 // runPlanner: PlanChanges on the whole change list (schema-level changes first, then the table
@@ -376,7 +432,7 @@ func runPlanner(sc *scenario, p migrate.PlanApplier, intT string) runRes {
 			if k == 0 {
 				first = planCmds(plan)
 			} else if c := planCmds(plan); c != first {
-				more = append(more, failure{class: "replan-differs", msg: fmt.Sprintf("PlanChanges run %d of the same slice gives\n%s\nthe first run gave\n%s", k+1, c, first)})
+				more = append(more, failure{class: "replan-differs", msg: fmt.Sprintf("PlanChanges run %d of the same slice gives {%s}, the first run gave {%s}", k+1, clip(c), clip(first))})
 			}
 			if snapshot(in) != snap {
 				more = append(more, failure{class: "input-mutated", msg: fmt.Sprintf("PlanChanges run %d changed the slice it was given (elements, ModifyTable.Changes or a table's foreign keys)", k+1)})
